@@ -1,5 +1,5 @@
 // Command instrument rewrites a scratch copy of package fox: around every call of a synchronisation primitive
-// (Lock, RLock, Unlock, RUnlock, atomic Load, Store, Swap, CompareAndSwap) it inserts the verif yield hooks, so that
+// (Lock, RLock, TryLock, TryRLock, Unlock, RUnlock, atomic Load, Store, Swap, CompareAndSwap) it inserts the verif yield hooks, so that
 // the simulator gets a scheduling point at every such operation wherever the code under test places it.
 //
 //	instrument <dir>
@@ -39,6 +39,10 @@ func classify(call *ast.CallExpr) (site, bool) {
 	case "RLock":
 		if n == 0 {
 			return site{"rlock", sel.X}, true
+		}
+	case "TryLock", "TryRLock":
+		if n == 0 {
+			return site{"trylock", sel.X}, true
 		}
 	case "Unlock", "RUnlock":
 		if n == 0 {
@@ -118,6 +122,8 @@ func prePost(s site) (pre, post []ast.Stmt) {
 	case "rlock":
 		pre = append(pre, call("simAcquire", sel(s.recv, "TryRLock"), sel(s.recv, "RUnlock")))
 		post = append(post, call("simPoint", pt("ptLocked")))
+	case "trylock":
+		pre = append(pre, call("simPoint", pt("ptTryLock")))
 	case "unlock":
 		pre = append(pre, call("simPoint", pt("ptBeforeUnlock")))
 		post = append(post, call("simPoint", pt("ptUnlocked")))
